@@ -344,3 +344,18 @@ func (k *ExtendedKey) String() string {
 	}
 	return k.String__real()
 }
+
+// VerifC04ECPrivKey: the signing key handed out for a private extended key is the key's scalar - also when the scalar
+// is stored in fewer than 32 bytes (Child strips leading zero bytes) - and its public key is the point the key
+// serialises as its public key (what addresses are built from).
+func VerifC04ECPrivKey() {
+	k, key, _ := c14PrivParent(rt.NondetLen(29, 32))
+	priv, err := k.ECPrivKey()
+	rt.Assert(err == nil && priv != nil, "private-key-available")
+	if err != nil || priv == nil {
+		return
+	}
+	rt.Assert(priv.D.Cmp(new(big.Int).SetBytes(key)) == 0, "signing-scalar-is-the-stored-scalar")
+	rt.Assert(bytes.Equal(priv.PubKey().SerializeCompressed(), c14SerP(key)), "public-key-of-the-signing-key-is-the-keys-public-key")
+	rt.Reach("end")
+}
